@@ -992,6 +992,53 @@ def clash_schemas(seed, count):
     return [clash_schema(seed, i) for i in range(count)]
 
 
+def self_clash_schema(package="selfclash"):
+    """Deterministic schema in which every kind of entity shares its name with one of its own members, with a fixed name
+    (`types`, `messages`, `schema`) or with an inline type of another composite -- the situations in which sbeppc has to
+    mangle the name of a *type* class.  The line coverage of sbeppc (tools/coverage_sbeppc.sh) showed that the quick
+    tier reached the mangling of public composites, of inline array types and of the `types` tag only by luck of the
+    seeded clash schemas."""
+    from . import refmodel
+    nid = _ids()
+    types = [std_header(), std_dimension(), std_vardata(),
+             # composite named like its element; element kinds: type, array, enum, set, composite, ref
+             Composite("CA", [Type("CA", "uint16"), Type("x", "uint8")]),
+             Composite("CB", [Composite("CB", [Type("CB", "int8"), Type("y", "uint8")]), Type("z", "uint8")]),
+             Composite("CC", [Type("CC", "char", length=3), Type("w", "uint8")]),
+             Composite("CD", [Enum("CD", "uint8", [EnumValue("CD", "1"), EnumValue("o", "2")]), Type("v", "uint8")]),
+             Composite("CE", [SetT("CE", "uint8", [Choice("CE", 0), Choice("p", 3)]), Type("u", "uint8")]),
+             Type("RT", "uint32"),
+             Composite("CF", [Ref("CF", "RT"), Ref("RT", "RT")]),
+             # enum / set named like one of their members
+             Enum("EA", "uint8", [EnumValue("EA", "1"), EnumValue("other", "2")]),
+             SetT("SA", "uint16", [Choice("SA", 0), Choice("other", 9)]),
+             # inline types of the same name in different composites (the second one is mangled: one namespace)
+             Composite("I1", [Type("arr", "char", length=4), Enum("e", "uint8", [EnumValue("a", "1")]),
+                              SetT("s", "uint8", [Choice("a", 1)]), Composite("c", [Type("m", "uint8")]), Type("t", "int16")]),
+             Composite("I2", [Type("arr", "char", length=2), Enum("e", "uint16", [EnumValue("b", "7")]),
+                              SetT("s", "uint32", [Choice("b", 31)]), Composite("c", [Type("n", "uint64")]), Type("t", "int64")]),
+             # inline type named like a public type
+             Composite("I3", [Type("RT", "uint8"), Type("EA", "uint8"), Composite("CA", [Type("q", "uint8")])]),
+             # the fixed names
+             Type("types", "uint8"), Type("messages", "uint16"), Type("schema", "uint32"), Type("detail", "int8"),
+             Composite("tags", [Type("types", "uint8"), Type("messages", "uint8")])]
+    tn = [t.name for t in types[3:] if t.name != "RT"] + ["RT"]
+    m1 = Message("M1", 1, [Field("f_%d" % i, nid(), n) for i, n in enumerate(tn)],
+                 [Group("GX", nid(), [Field("CA", nid(), "CA"), Field("types", nid(), "types")],
+                        [Group("GX", nid(), [Field("GX", nid(), "EA")], [], [Data("GX_d", nid(), "varDataEncoding")])], [])],
+                 [Data("M1", nid(), "varDataEncoding")])
+    # fields named like their type, like the message, like the fixed names
+    m2 = Message("messages", 2, [Field("mfield", nid(), "messages"), Field("types", nid(), "types"), Field("schema", nid(), "schema"),
+                                 Field("CA", nid(), "CA"), Field("EA", nid(), "EA"), Field("SA", nid(), "SA"), Field("I2", nid(), "I2")],
+                 [Group("messages", nid(), [Field("messages", nid(), "uint8")], [], [])], [Data("schema_d", nid(), "varDataEncoding")])
+    m3 = Message("types", 3, [Field("types", nid(), "uint8")], [Group("schema", nid(), [Field("types", nid(), "CB")], [], [])], [])
+    m4 = Message("schema", 4, [Field("schema", nid(), "CC"), Field("detail", nid(), "detail")], [], [Data("types", nid(), "varDataEncoding")])
+    s = Schema(package, id=11, version=2, types=types, messages=[m1, m2, m3, m4], description="self clash schema", name=package)
+    refmodel.fix_offsets(s)
+    refmodel.fit_ids_to_header(s)
+    return s
+
+
 # ----------------------------------------------------------------------------- systematic pair clashes (C07)
 
 PAIR_POOL = ["X", "X_entry", "X_0", "X_0_entry", "X_1", "entry", "X_entry_0"]
